@@ -278,6 +278,20 @@ def handle (line : String) : String :=
       | some pairs => toString (Sexp.list (pairs.map pairTo))
       | none => "none"
     | none => "none"
+  | some (.list [.atom "printlit", k, u, .list es]) =>
+    -- k: true = list literal, false = set literal
+    match k.toBool?, u.toBool?, es.mapM skelOf with
+    | some isList, some uni, some entries =>
+      toString (Sexp.list ((printLit Gen.table Gen.ladder (if isList then Gen.listSyms else Gen.setSyms) uni entries).map tokTo))
+    | _, _, _ => "bad-op"
+  | some (.list [.atom "parselittext", k, .atom s]) =>
+    match k.toBool?, lex Gen.symbolsC (toCodes (dec s)) with
+    | some isList, some toks =>
+      match parseLit Gen.table Gen.ladder (if isList then Gen.listSyms else Gen.setSyms) toks with
+      | some (entries, []) => toString (Sexp.list (entries.map skelTo))
+      | _ => "none"
+    | none, _ => "bad-op"
+    | _, none => "none"
   | some (.list [.atom "parsetytext", .atom s]) =>
     match lex Gen.symbolsC (toCodes (dec s)) with
     | some toks =>
